@@ -529,6 +529,37 @@ func (t *Tr) havocForCall(cc *ssa.CallCommon, ct *Contract, env *Env, st *State)
 				extra = append(extra, t.ms.modsVisible(mc.Fn.(*ssa.Function), t.fn)...)
 			}
 		}
+		// `preserves` clauses of the closures handed over: true before the call => true after it (each call-back
+		// preserves them, proved on the closure's body; the library cannot touch the captured cells)
+		type pres struct {
+			e    Expr
+			cond Term
+		}
+		var keeps []pres
+		for _, a := range cc.Args {
+			mc, ok := a.(*ssa.MakeClosure)
+			if !ok {
+				continue
+			}
+			if cct := t.sp.Contracts[funcKey(mc.Fn.(*ssa.Function))]; cct != nil {
+				for _, pc := range cct.Preserves {
+					penv := t.pointEnv(nil, cc)
+					if g, err := penv.boolExpr(pc.E); err == nil {
+						keeps = append(keeps, pres{pc.E, g})
+					} else {
+						t.unsup("preserves clause of %s at call site: %v", cct.Key, err)
+					}
+				}
+			}
+		}
+		defer func() {
+			for _, k := range keeps {
+				penv := t.pointEnv(nil, cc)
+				if g, err := penv.boolExpr(k.e); err == nil {
+					t.c.assert(implies(k.cond, g))
+				}
+			}
+		}()
 		sort.Strings(extra)
 		pre := map[string]Term{}
 		for _, m := range extra {
@@ -1092,6 +1123,8 @@ func (t *Tr) callSiteClauses(name string, ord int, cc *ssa.CallCommon, pos token
 			sfx += "." + label
 		}
 		t.addObl("call", sfx, pos, t.reach[t.curBlk], g, "at call of "+name+": "+txt)
+		// once checked, the clause is available to later obligations (it doubles as a proof hint)
+		t.c.assert(implies(t.reach[t.curBlk], g))
 	}
 }
 
